@@ -547,7 +547,7 @@ func (r *resolver) resolveRef(rs *Resolved, s *Schema, ref string) (_ *Schema, d
 			}
 			// Check if referenced schema has $schema defined. If not it should inherit the resolved
 			if ls.Schema == "" {
-				ls.Schema = s.Schema
+				ls.Schema = rs.root.Schema
 			}
 			lrs, err = r.resolve(ls, fraglessRefURI)
 			if err != nil {
